@@ -8,16 +8,16 @@ props = [json.loads(l) for l in open(os.path.join(HERE, 'properties.jsonl'))]
 LEVEL = {
  'C01': ('E2', 'runtime contract (fiber kernel) scenarios: swap targets saved/not running, deferred actions, wake-before-switch windows, over all interleavings of 2 kernel threads within the bounds'),
  'C02': ('E2', 'Chase-Lev deque of work_stealing_deque.c: every interleaving (SC) and every store-buffer reordering (x86-TSO) of one owner and 1-2 thieves within the stated operation counts, incl. the growth boundary'),
- 'C03': ('E2', 'mutex over the fiber contract kernel: all interleavings of 2-3 fibers'),
+ 'C03': ('E1+E2', 'rely/guarantee step over the mutex counter (one lock/trylock/unlock from any number < 2^20 of contenders with arbitrary interference; covers histories of any length for the counter protocol) + mutex over the fiber contract kernel: all interleavings of 2-3 fibers'),
  'C04': ('E2', 'join / detach (quick) and tryjoin, join-with-NULL-result, two concurrent actors (thorough, stretch) against the real fiber.c completion path over the fiber contract kernel: all interleavings of the stated actors; the VM liveness ghost decides reclaimed-once / never touched afterwards'),
- 'C05': ('E2', 'real fiber_cond.c and the real unlock-and-wait path over the fiber contract kernel, with fiber_mutex replaced by its C03 contract: all interleavings of 1-2 waiters with a signaller (signal / broadcast, mutex held or released)'),
+ 'C05': ('E1+E2', 'rely/guarantee accounting step (one signal/broadcast/wait from any number of announced waiters, arbitrary concurrent announcements) + real fiber_cond.c and the real unlock-and-wait path over the fiber contract kernel, with fiber_mutex replaced by its C03 contract: all interleavings of 1-2 waiters with a signaller (signal / broadcast, mutex held or released)'),
  'C06': ('E1', 'rely/guarantee step over the semaphore counter: every operation of fiber_semaphore.c from an arbitrary counter value with arbitrary interference before each atomic step (covers histories of any length for the counter protocol); the mpmc wait queue underneath (C13) is assumed, not proved - a partial claim, see DESIGN.md section 5'),
  'C07': ('E1+E2', 'inductive step over the 64-bit lock word for every operation from an arbitrary invariant-satisfying state with arbitrary interference (covers histories of any length for the word protocol) + small concurrent scenario'),
  'C08': ('E1', 'every shim of fiber_io.c and the fd half of fiber_event_native.c symbolically executed for arbitrary descriptors, flags and environment answers (ghost non-blocking kernel), bounded EAGAIN rounds'),
  'C09': ('E1+E2', 'sleep arithmetic for all 2^64 argument combinations and timer phases, sleeper tree for arbitrary keys, wake-once step; wake race as concurrent scenario'),
  'C10': ('E2', 'yield fairness on the real scheduler: bypass counter bounded for every yield pattern within the step bound'),
- 'C11': ('E2', 'signal wait/raise handshake decided over all interleavings; channel scenarios (queue + signal) are stretch jobs without verdict so far, for them the claim is compositional (queues: C15/C16, never-lost raise: the signal scenarios) and says so'),
- 'C12': ('E2', 'barrier over the fiber contract kernel: count 2 one round (SC, TSO) and count 1 two rounds decided; count 2 x 2 rounds and count 3 are stretch jobs without verdict so far and are not claimed'),
+ 'C11': ('E1+E2', 'rely/guarantee step for the multi channel (one send/receive from an arbitrary valid channel state after every lock acquisition), channel receive pattern over the real signal under SC and x86-TSO, + signal wait/raise handshake decided over all interleavings; channel scenarios (queue + signal) are stretch jobs without verdict so far, for them the claim is compositional (queues: C15/C16, never-lost raise: the signal scenarios) and says so'),
+ 'C12': ('E1+E2', 'one complete barrier round for every count 1..4 with all arrivals as real calls, late enqueuers and fibers re-entering the next round during the release (E1 round harness; found the count >= 3 defect fixed in 619b508) + barrier over the fiber contract kernel: count 2 one round (SC, TSO) and count 1 two rounds decided; count 2 x 2 rounds and count 3 are stretch jobs without verdict so far and are not claimed'),
  'C13': ('E1', 'rely/guarantee step: one real mpmc_fifo_trypop / mpmc_fifo_push (with the real hazard_pointer_using/done_using/free) against an environment that pops, pushes, links, reclaims and reuses nodes at every point where the real code touches shared memory, under the hazard-pointer contract of C14; ghost queue decides true-successor / FIFO value / exactly-once retirement / legitimate empty'),
  'C14': ('E1+E2', 'hazard_pointer_scan / binary search / threshold arithmetic for arbitrary ordering patterns (E1, N<=3,K<=2) and for arbitrary 64-bit slot values on integer addresses (E2); scan racing with a registration is a stretch job; the publish/validate side inside mpmc_fifo is not covered'),
  'C15': ('E2', 'mpsc / spsc / relaxed mpsc: every interleaving (and x86-TSO reordering for small configurations) of the stated producer/consumer programs, incl. liveness of the consumer (nothing lost)'),
@@ -58,7 +58,7 @@ m = {
            'baseline_off_cmd': 'cd /repo && cmake -G Ninja -B _build >/dev/null && (cmake --build _build -- -k 0 >/dev/null; ctest --test-dir _build -j8 --timeout 900)',
            'source_commits': [], 'add_only': True},
  'engines': [
-  {'name': 'E1 cbmc-src', 'path': 'e1/', 'serves_properties': ['C05', 'C06', 'C07', 'C08', 'C09', 'C11', 'C13', 'C14', 'C17', 'C18', 'C19'], 'kind_free_text': 'CBMC on the real .c files with contract stubs for the environment'},
+  {'name': 'E1 cbmc-src', 'path': 'e1/', 'serves_properties': ['C03', 'C05', 'C06', 'C07', 'C08', 'C09', 'C11', 'C12', 'C13', 'C14', 'C17', 'C18', 'C19'], 'kind_free_text': 'CBMC on the real .c files with contract stubs for the environment'},
   {'name': 'E2 fvm', 'path': 'e2/', 'serves_properties': ['C01', 'C02', 'C03', 'C04', 'C05', 'C06', 'C07', 'C09', 'C10', 'C11', 'C12', 'C13', 'C14', 'C15', 'C16', 'C17', 'C18', 'C20'], 'kind_free_text': 'clang -O1 IR of the real units -> ir2cell -> C over integer cell memory -> CBMC threads (--mm sc / tso)'},
   {'name': 'E3 x86sym', 'path': 'e3/', 'serves_properties': ['C19'], 'kind_free_text': 'z3 symbolic interpreter for the inline assembly of fiber_context_swap extracted from the IR'},
  ],
